@@ -357,6 +357,13 @@ func genExtracted(b *strings.Builder, root, authp, httpio *pkg) {
 	}
 	w("Definition doCall_first_stmt_is_deferred_recover : bool := %s.", coqBool(rec))
 	w("")
+	w("(* built-in websocket methods: is every params[i] preceded by an `if len(params) < k { ... return }` with k > i, *)")
+	w("(* and is the cancel id passed through normalizeID before it is used as a map key *)")
+	w("Definition guard_cancel_len : bool := %s.", coqBool(indexGuarded(root, "cancelCtx", "params")))
+	w("Definition guard_cancel_norm : bool := %s.", coqBool(normalizedBeforeIndex(root, "cancelCtx", "handling")))
+	w("Definition guard_val_len : bool := %s.", coqBool(indexGuarded(root, "handleChanMessage", "params")))
+	w("Definition guard_close_len : bool := %s.", coqBool(indexGuarded(root, "handleChanClose", "params")))
+	w("")
 	w("(* package auth *)")
 	sh := authp.funcDecl("Handler", "ServeHTTP")
 	if sh == nil {
@@ -410,4 +417,109 @@ func genExtracted(b *strings.Builder, root, authp, httpio *pkg) {
 		}
 	}
 	w("Definition reader_wait_closes : list (string * bool) := [%s].", strings.Join(sites, "; "))
+}
+
+// indexGuarded: in wsConn.<fn>, every constant index expression <v>[i] occurs (in source order) after a top-level
+// `if len(<v>) < k { ...; return }` with k > i. No index expression at all also counts as guarded.
+func indexGuarded(p *pkg, fn, v string) bool {
+	fd := p.funcDecl("wsConn", fn)
+	if fd == nil {
+		die("wsConn.%s not found", fn)
+	}
+	type guard struct {
+		pos token.Pos
+		k   int64
+	}
+	var guards []guard
+	for _, st := range fd.Body.List {
+		is, ok := st.(*ast.IfStmt)
+		if !ok || is.Init != nil {
+			continue
+		}
+		be, ok := is.Cond.(*ast.BinaryExpr)
+		if !ok || be.Op != token.LSS {
+			continue
+		}
+		if exprString2(be.X) != "len("+v+")" {
+			continue
+		}
+		bl, ok := be.Y.(*ast.BasicLit)
+		if !ok {
+			continue
+		}
+		k, _ := strconv.ParseInt(bl.Value, 0, 64)
+		// body must end in return
+		if n := len(is.Body.List); n == 0 {
+			continue
+		} else if _, ok := is.Body.List[n-1].(*ast.ReturnStmt); !ok {
+			continue
+		}
+		guards = append(guards, guard{is.End(), k})
+	}
+	okAll := true
+	ast.Inspect(fd.Body, func(n ast.Node) bool {
+		ix, ok := n.(*ast.IndexExpr)
+		if !ok || exprString(ix.X) != v {
+			return true
+		}
+		bl, ok := ix.Index.(*ast.BasicLit)
+		if !ok {
+			okAll = false
+			return true
+		}
+		i, _ := strconv.ParseInt(bl.Value, 0, 64)
+		covered := false
+		for _, g := range guards {
+			if g.pos < ix.Pos() && g.k > i {
+				covered = true
+			}
+		}
+		if !covered {
+			okAll = false
+		}
+		return true
+	})
+	return okAll
+}
+
+// normalizedBeforeIndex: in wsConn.<fn>, the key variable of every index into c.<mapField> was assigned from
+// normalizeID(...) earlier in the function (with an error check that returns).
+func normalizedBeforeIndex(p *pkg, fn, mapField string) bool {
+	fd := p.funcDecl("wsConn", fn)
+	if fd == nil {
+		die("wsConn.%s not found", fn)
+	}
+	normalized := map[string]token.Pos{}
+	for _, st := range fd.Body.List {
+		as, ok := st.(*ast.AssignStmt)
+		if !ok || len(as.Rhs) != 1 {
+			continue
+		}
+		ce, ok := as.Rhs[0].(*ast.CallExpr)
+		if !ok || exprString(ce.Fun) != "normalizeID" {
+			continue
+		}
+		if id, ok := as.Lhs[0].(*ast.Ident); ok {
+			normalized[id.Name] = as.End()
+		}
+	}
+	okAll := true
+	found := false
+	ast.Inspect(fd.Body, func(n ast.Node) bool {
+		ix, ok := n.(*ast.IndexExpr)
+		if !ok || !strings.HasSuffix(exprString(ix.X), "."+mapField) {
+			return true
+		}
+		found = true
+		id, ok := ix.Index.(*ast.Ident)
+		if !ok {
+			okAll = false
+			return true
+		}
+		if pos, ok := normalized[id.Name]; !ok || pos > ix.Pos() {
+			okAll = false
+		}
+		return true
+	})
+	return okAll && found
 }
